@@ -28,9 +28,25 @@ type PkgSpec struct {
 	NoGlob   bool
 	Mutate   func(*nfpm.Info) // extra settings (compression, scripts, metadata …)
 	Describe map[string]any
+	// FromYAML, when set, makes Info() parse this document with nfpm.ParseWithEnvMapping (Env is the
+	// mapping) instead of building the Info through the Go API: the route a user's nfpm.yaml takes.
+	FromYAML string
+	Env      map[string]string
 }
 
 func (s *PkgSpec) Info() *nfpm.Info {
+	if s.FromYAML != "" {
+		cfg, err := nfpm.ParseWithEnvMapping(strings.NewReader(s.FromYAML), func(k string) string { return s.Env[k] })
+		if err != nil {
+			// callers parse once themselves and report the error; an Info that cannot be packaged
+			return &nfpm.Info{Name: "", Platform: "parse-error"}
+		}
+		info := cfg.Info
+		if s.Mutate != nil {
+			s.Mutate(&info)
+		}
+		return &info
+	}
 	info := &nfpm.Info{
 		Name:        "verifpkg",
 		Arch:        "amd64",
